@@ -310,6 +310,27 @@ def session_leg(ctx: Ctx, maxops: int):
             ctx.nontrivial.add(("session", json.dumps(c["hist"], sort_keys=True)))
         for b in bad:
             ctx.violation({"session": b["history"], "step": b["step"]}, b, kind="replay")
+    # deep histories: random behaviours of the same specification (tlc -simulate), replayed like the enumerated ones
+    from ..tlc import simulate_emitted
+
+    deep = 10
+    sr, srecs = simulate_emitted("MC_ParserSession", cfg.replace(f"MaxOps = {maxops}", f"MaxOps = {deep}").replace("INVARIANT NeedsTable\n", ""), "c14s",
+                                 num=100 if ctx.quick else 1500, depth=deep + 2, seed=ctx.seed + 1)
+    if sr.violated:
+        ctx.model_violation(sr, "MC_ParserSession (simulation)")
+    srecs = [c for c in srecs if len(c["hist"]) > maxops + 1]
+    seen = set()
+    uniq = [c for c in srecs if (k := json.dumps(c["hist"], sort_keys=True)) not in seen and not seen.add(k)]
+    sres = pmap("harness.props.c14", "replay_session", uniq, chunk=300)
+    for c, bad in zip(uniq, sres):
+        ctx.traces += 1
+        ctx.evaluations += sum(1 for h in c["hist"] if h["op"] == "parse")
+        ctx.nontrivial.add(("session", json.dumps(c["hist"], sort_keys=True)))
+        for b in bad:
+            ctx.violation({"session": b["history"], "step": b["step"]}, b, kind="replay")
+    ctx.require("session leg: simulated histories longer than the exhaustive bound", len(uniq), 500)
+    ctx.notes["session_simulated_histories"] = len(uniq)
+    ctx.tlc_runs.append({"module": "MC_ParserSession", "what": f"-simulate: random histories of <= {deep} calls", "generated": sr.generated, "distinct": len(uniq), "depth": deep, "wall_s": round(sr.wall_s, 2)})
     full = [c for c in cases if len(c["hist"]) == maxops + 1 and c["hist"][-1]["op"] == "parse"]
     if full:
         ctx.sample({"parser_session": full[len(full) // 2]["hist"]})
